@@ -309,6 +309,54 @@ Definition classify_number (whole : string) (sg : option bool) (body : string) :
   | NNone => None
   end.
 
+(* ---- a number token followed by something: enough of the tokenizer to give most such strings a verdict ---- *)
+(* the rest after the longest number token at the start of s; None when s does not start with one *)
+Definition exponent_rest (s : string) : option string :=          (* s starts after the e *)
+  let s1 := match s with String c t => if ch 45 c || ch 43 c then t else s | EmptyString => s end in
+  match scan_dp is_digit s1 with Some (_, r) => Some r | None => None end.
+Definition imag_rest (r : string) : string :=
+  match r with String c t => if is_j c then t else r | EmptyString => r end.
+Definition after_mantissa_rest (r : string) : string :=
+  match r with
+  | String c r' => if is_e c then match exponent_rest r' with Some r2 => imag_rest r2 | None => r end else imag_rest r
+  | EmptyString => r
+  end.
+Definition decimal_prefix (s : string) : option string :=
+  let (ip, r1) := scan_dp_opt s in
+  match r1 with
+  | String c r2 =>
+      if ch 46 c then let (fp, r3) := scan_dp_opt r2 in
+                      if sempty ip && sempty fp then None else Some (after_mantissa_rest r3)
+      else if sempty ip then None else Some (after_mantissa_rest r1)
+  | EmptyString => if sempty ip then None else Some r1
+  end.
+Definition radix_prefix (p : ascii -> bool) (t : string) : option string :=
+  let t' := match t with String c r => if ch 95 c then r else t | EmptyString => t end in
+  match scan_dp p t' with Some (_, r) => Some r | None => None end.
+Definition number_prefix (s : string) : option string :=
+  match s with
+  | String c0 (String x t) =>
+      let rr := if ch 48 c0 then
+                  if ch 120 x || ch 88 x then radix_prefix is_hex t
+                  else if ch 111 x || ch 79 x then radix_prefix (in_range 48 55) t
+                  else if ch 98 x || ch 66 x then radix_prefix (in_range 48 49) t
+                  else None
+                else None in
+      match rr with Some r => Some r | None => decimal_prefix s end
+  | _ => decimal_prefix s
+  end.
+(* a number token followed by [rest]: only "," (tuple), "#" (comment), "+"/"-" (complex) can continue a literal;
+   anything else makes the expression a SyntaxError or a node literal_eval rejects *)
+Definition classify_after_number (whole body : string) : cls :=
+  match number_prefix body with
+  | None => CUnmodelled
+  | Some rest =>
+      match skip_blank rest with
+      | EmptyString => CUnmodelled
+      | String c _ => if ch 44 c || ch 35 c || ch 43 c || ch 45 c then CUnmodelled else CStr whole
+      end
+  end.
+
 (* characters that cannot start a Python expression (single-line source): SyntaxError; and ~ (ValueError) *)
 Definition never_starts_literal (c : ascii) : bool :=
   ch 33 c || ch 35 c || ch 36 c || ch 37 c || ch 38 c || ch 41 c || ch 42 c || ch 44 c || ch 47 c ||
@@ -337,9 +385,9 @@ Definition classify (s : string) : cls :=
   | String c t =>
       if is_ident_start c then classify_ident s
       else if is_digit c then
-        match classify_number s None s with Some r => r | None => CUnmodelled end
+        match classify_number s None s with Some r => r | None => classify_after_number s s end
       else if ch 46 c then
-        if shead is_digit t then match classify_number s None s with Some r => r | None => CUnmodelled end
+        if shead is_digit t then match classify_number s None s with Some r => r | None => classify_after_number s s end
         else match t with
              | String c2 (String c3 t3) =>
                  if ch 46 c2 && ch 46 c3 then (if sempty t3 then COtherLit else CUnmodelled) else CStr s
@@ -348,9 +396,13 @@ Definition classify (s : string) : cls :=
       else if ch 45 c || ch 43 c then
         let body := skip_blank t in
         if shead is_ident_start body then CStr s
-        else if shead is_digit body || shead (ch 46) body then
-          match classify_number s (Some (ch 45 c)) body with Some r => r | None => CUnmodelled end
-        else CUnmodelled
+        else if shead is_digit body || (shead (ch 46) body && shead is_digit (match body with String _ b => b | EmptyString => body end)) then
+          match classify_number s (Some (ch 45 c)) body with Some r => r | None => classify_after_number s body end
+        else match body with
+             | EmptyString => CStr s                                              (* a lone sign: SyntaxError *)
+             | String c2 _ => if ch 45 c2 || ch 43 c2 || ch 46 c2 || never_starts_literal c2 then CStr s   (* --5, +., -~1: rejected *)
+                              else CUnmodelled                                  (* sign + quote / bracket *)
+             end
       else if never_starts_literal c then CStr s
       else CUnmodelled
   end.
